@@ -241,6 +241,9 @@ def check(run, ctx):
         loops = [n for n in ast.walk(inner) if isinstance(n, ast.For)]
         ok = len(loops) == 1 and ast.unparse(loops[0].iter) == "node.children" and not any(isinstance(x, (ast.If, ast.Continue, ast.Break)) for x in loops[0].body) and not any(isinstance(x, ast.Return) for x in ast.walk(inner))
         (run.ok(N5, f"{lang} visit_node", "for child in node.children: visit_node(child, ...) unconditionally") if ok else run.finding(N5, f"{lang} visit_node", "pruned-walk", f"the {lang} depth walker does not visit every child unconditionally", f.loc))
+    for rec in shared.whole_tree_finders(ctx):
+        if ".nesting." in rec["func"]:
+            (run.ok(N5, rec["func"], rec["detail"]) if rec["ok"] else run.finding(N5, rec["func"], "partial-descent", f"{rec['func']}: {rec['detail']}", rec["loc"]))
     for rec in shared.collector_walkers(ctx, prefixes=(PKG,)):
         (run.ok(N5, rec["func"], rec["detail"]) if rec["ok"] else run.finding(N5, rec["func"], "pruned-walk", f"{rec['func']}: {rec['detail']}: functions nested below such a node are never analysed", rec["loc"]))
     run.extra["walker_signatures"] = {k: {a: b for a, b in v.items() if a != "loc"} for k, v in sigs.items()}
